@@ -1,12 +1,13 @@
 #!/bin/bash
 # try_revert.sh <fix-commit> <Cnn> [tier] -- run a check against /repo HEAD with one fix commit reverted (scratch worktree).
+VROOT="$(cd "$(dirname "$(readlink -f "$0")")/.." && pwd)"  # the /verif copy this tool belongs to (a vp-run snapshot uses its own)
 commit=$1; prop=$2; tier=${3:-quick}
 wt=/tmp/vt/rev-$commit-$prop; out=/tmp/vt/out-rev-$commit-$prop
 git -C /repo worktree remove --force $wt 2>/dev/null; rm -rf $out
 git -C /repo worktree add --detach $wt HEAD -q || exit 2
 git -C $wt revert --no-commit $commit >/dev/null 2>&1 || { echo "REVERT-CONFLICT $commit"; git -C /repo worktree remove --force $wt; exit 3; }
-VERIF_REPO=$wt VERIF_OUT=$out /verif/run.sh $prop $tier > /tmp/vt/log-rev-$commit-$prop.txt 2>&1; rc=$?
+VERIF_REPO=$wt VERIF_OUT=$out $VROOT/run.sh $prop $tier > /tmp/vt/log-rev-$commit-$prop.txt 2>&1; rc=$?
 nv=$(grep -c '^VIOLATION' /tmp/vt/log-rev-$commit-$prop.txt)
 if [ $rc -eq 1 ] && [ $nv -gt 0 ]; then echo "DETECTED revert of $commit by $prop $tier ($nv): $(grep '^VIOLATION' /tmp/vt/log-rev-$commit-$prop.txt | head -1 | cut -c1-260)";
 elif [ $rc -eq 0 ]; then echo "MISSED revert of $commit by $prop $tier"; else echo "ERROR rc=$rc"; tail -5 /tmp/vt/log-rev-$commit-$prop.txt; fi
-git -C /repo worktree remove --force $wt; hh=$(echo "$wt" | md5sum | cut -c1-8); rm -rf $out /verif/harness/bin/*alt.$hh* /verif/harness/bin/vcheck-*-alt.$hh* /verif/harness/bin/overlay-*-alt.$hh* 2>/dev/null
+git -C /repo worktree remove --force $wt; hh=$(echo "$wt" | md5sum | cut -c1-8); rm -rf $out $VROOT/harness/bin/*alt.$hh* $VROOT/harness/bin/vcheck-*-alt.$hh* $VROOT/harness/bin/overlay-*-alt.$hh* 2>/dev/null
